@@ -169,7 +169,9 @@ def relabel_unit(ctx, unit):
                 # pss_A to -pss_D here, so the images differ by exactly that sign.
                 gD = {k: -v for k, v in gD.items()}
                 ctx.count('pss_orientation_flipped_cases')
-            bad = elem_diff(gA, gD)
+            # outertan is outersin * inverse(outercos) evaluated in floats (1/k! constants); for d >= 4 the closed-form inverse loses
+            # several digits on ordinary operands and the two bases evaluate differently ordered polynomials (see 8.2, C19)
+            bad = elem_diff(gA, gD, tol=1e-6) if (op == 'outertan' and d >= 4) else elem_diff(gA, gD)
             if bad:
                 ctx.violation('operator does not commute with the relabelling map', cid, reference_blades=bad[:6],
                               custom_result=show_elem({k: gA.get(k, 0) for k in bad[:4]}),
